@@ -54,7 +54,7 @@ def primitiveWith (chk : Bool) (m : Method) (st : State Î±) (dend : Dendrogram Î
   if M.n = 0 then pure (st, dend, M) else
   let st := st.reset M.n
   let (st, dend, M) â† iterM (primitiveIter chk m) (M.n - 1) (st, dend, M)
-  let (uf, dend) â† relabel m dend
+  let (uf, dend) â† relabel m st.set dend
   let dend := sqrtSteps m dend
   pure ({ st with set := uf }, dend, M)
 
